@@ -106,15 +106,30 @@ func VerifBitsFormat() {
 		sum := md5.Sum(view)
 		vrt.Assert(ok && s == hex.EncodeToString(sum[:]), "bits_format md5: digest of the byte view")
 	}
-	// the rendering is a function of the value: rendering it again with the same
-	// formatter (as tovalue/-V do for every raw field of a tree) gives the same text
-	got2 := b.JQValueToGoJQEx(func() (*Options, error) { return &Options{BitsFormatFn: fn}, nil })
-	if s1, ok := got.(string); ok {
-		s2, ok2 := got2.(string)
-		vrt.Assert(ok2 && s1 == s2, "bits_format: no state is carried from one rendered value to the next")
-	}
 	// raw output writes the same bytes
 	var out bytes.Buffer
 	vrt.Assert(b.Display(&out, &Options{RawOutput: true}) == nil, "raw display succeeds")
 	vrt.Assert(bytes.Equal(out.Bytes(), view), "raw display writes exactly the byte view")
+}
+
+// VerifBitsFormatStateless: one formatter renders every raw field of a tree
+// (tovalue, -V): rendering a second value after a first one gives the second
+// value's own encoding - no state is carried over (fixed data: the question is
+// about the formatter's state, not the bits).
+func VerifBitsFormatStateless() {
+	formats := []string{"string", "hex", "base64", "truncate", "md5"}
+	f := formats[vrt.Choice("format", len(formats))]
+	fn, err := bitsFormatFnFromOptions(Options{BitsFormat: f, Sizebase: 10})
+	vrt.Assert(err == nil, "bits_format: known format")
+	mk := func(s string) Binary {
+		return Binary{br: bitio.NewBitReader([]byte(s), -1), r: ranges.Range{Start: 0, Len: int64(8 * len(s))}, unit: 8}
+	}
+	opts := func() (*Options, error) { return &Options{BitsFormatFn: fn}, nil }
+	first, _ := mk("xyz").JQValueToGoJQEx(opts).(string)
+	second, _ := mk("ab").JQValueToGoJQEx(opts).(string)
+	third, _ := mk("xyz").JQValueToGoJQEx(opts).(string)
+	sum := md5.Sum([]byte("ab"))
+	want := map[string]string{"string": "ab", "truncate": "ab", "hex": "6162", "base64": "YWI=", "md5": hex.EncodeToString(sum[:])}[f]
+	vrt.Assert(second == want, "bits_format: the second rendered value is its own encoding")
+	vrt.Assert(first == third && first != "", "bits_format: rendering the same value again gives the same text")
 }
